@@ -436,3 +436,11 @@ Theorem mt_seq_pool_follows_ldm : forall cfg ops sched,
   (forall t w, nth_error (ws s) t = Some w -> w_pc w = WGetSeq \/ w_pc w = WRelSeq -> sp_on (pl s) = true /\ ldm (mt s) = true).
 Proof. exact seq_pool_follows_ldm. Qed.
 Print Assumptions mt_seq_pool_follows_ldm.
+
+(* transition form, ANY state: a step of any thread leaves the LDM flag of the context alone unless it is a step of the application thread
+   that ends at the ZSTDMT_setBufferSize section of ZSTDMT_initCStream_internal - where, by mt_release_only_when_idle, no pool thread holds a
+   job and the queue is empty.  So the flag a job reads (serial section, ZSTDMT_getSeq, the wait for the LDM window) is constant during the job *)
+Theorem mt_ldm_flag_changes_only_at_init : forall cfg t w s s',
+  step cfg t w s = Some s' -> ldm (mt s') = ldm (mt s) \/ (t = 0%nat /\ c_pc (cl s') = CInitBuf).
+Proof. exact ldm_flag_changes_only_at_init. Qed.
+Print Assumptions mt_ldm_flag_changes_only_at_init.
